@@ -253,6 +253,10 @@ def run_body(text, sv, dk, rnd, src, world=None, jc=None):
         mc = "-"
         if isinstance(ent, dict) and isinstance(ent.get("method"), str) and ent.get("method"):
             mc = classify_method(ent["method"], world, dk)
+            if mc == "badarity":
+                prm = ent.get("params", [])
+                if (isinstance(prm, list) and len(prm) == 2) or (isinstance(prm, dict) and set(prm) == {"a", "b"}):
+                    mc = "ok"          # the arguments happen to fit badarity_j(a, b): an ordinary successful call
         j = alias_of(ent.get("method")) if isinstance(ent, dict) else 0
         ents.append({"mc": mc, "v": enc(ent), "ncalls": world.calls.get(j, 0) if j else sum(world.calls.values()) if len(entries) == 1 else 0, "alias": j})
     # message of -32603 replies names the exception type and text (substring tests are done here, TLC asserts the flags)
